@@ -24,7 +24,7 @@ TRUSTED = ["vf/ic10_vm.py region monitor and divergence detector", "vf/pyref.py 
 
 def plan(tier, seed):
     q = tier == "quick"
-    tasks = pool.batches("terminating", 500 if q else 6000, 10) + pool.batches("endless", 300 if q else 4000, 10) + pool.batches("inlined", 200 if q else 2000, 10) + pool.batches("corpus", len(workload.corpus()), 2)
+    tasks = pool.batches("terminating", 500 if q else 6000, 10) + pool.batches("endless", 250 if q else 4000, 10) + pool.batches("tail", 200 if q else 3000, 10) + pool.batches("inlined", 200 if q else 2000, 10) + pool.batches("corpus", len(workload.corpus()), 2)
     for hz in ("tail_early_return",):
         tasks += pool.batches(f"defect:{hz}", 30 if q else 300, 10)
     return dict(tasks=tasks, nworkers=14, time_cap=85 if q else 880)
@@ -47,6 +47,8 @@ def gen_case(task, i):
         c, _ = workload.gen_program(ID, "defect:terminating_main", i, feats=dict(terminating_main=True), max_funcs=1)
         src = c["src"]
         vs = [dict(append_version=False), dict(append_version=False, remove_labels=True, compact=True)] + vs[:3]
+    elif st == "tail":
+        src = gen_shapes.tail_program(r)
     elif st == "corpus":
         src = workload.corpus_case(i)["src"]
     elif st == "endless":
